@@ -91,6 +91,40 @@ func vfC09(c *hx.Ctx) {
 			}
 		}
 	}
+	// out-of-band packets share the FEC header: layout, reserved id, no id consumed, parity over data only
+	for _, ciph := range []string{"", "aes-128", "aes-gcm"} {
+		cf := vfPairCfg{Cipher: ciph, DS: 2, PS: 1, SDS: -1, Stream: true, NoDelay: [4]int{1, 10, 2, 1}, Writes: []int{300, 1200, 50, 700}, WritesBack: []int{100}, ReadBuf: 4096, Pool: vrt.PoolEager,
+			Preempt: 1, Switch: 1, Select: 1, Wire: true, Owners: []string{"C09:"}, K: hx.Pick(c, 3, 4), HorizonS: 60}
+		body := func(p *vfPair) {
+			var wg vrt.WaitGroup
+			wg.Add(2)
+			vrt.Go("traffic", func() { defer wg.Done(); p.traffic() })
+			vrt.Go("oob", func() {
+				defer wg.Done()
+				max := p.client.GetOOBMaxSize()
+				for i, L := range []int{0, 5, max} {
+					p.client.SendOOB(vfPayload(8, L, i))
+					vrt.Sleep(2 * time.Millisecond)
+					p.mu.Lock()
+					srv := p.server
+					p.mu.Unlock()
+					if srv != nil {
+						srv.SendOOB(vfPayload(9, 17+i, i))
+					}
+				}
+			})
+			wg.Wait()
+			if !p.failed() {
+				p.drainBacklog()
+			}
+			if want := vfExpected(0, cf.Writes); !bytes.Equal(p.wireC2S.stream(), want) {
+				p.bad("C09:wire-stream-differs", "the byte stream reassembled from the wire differs from what was written (out-of-band packets interleaved)")
+			}
+			p.teardown()
+		}
+		c.UnitBudget = 10 * time.Second
+		c.Explore("wire-oob/cipher="+ciph, vfPairParams(cf, 0), 0, vfPairRun(cf, 0, body))
+	}
 	// nonce freshness of the real entropy source
 	if c.Shard == 0 && !c.Skip("entropy") {
 		start := time.Now()
